@@ -1,7 +1,7 @@
 (** C19 — consequences for the deficiency-one front end: when it answers true (all ranks exact), exactly one linkage class has
     deficiency 1 and every other class has deficiency 0; and the counts reported in the summary.  Style: stdlib lists
     (the MathComp results are used through their stdlib-level statements only). *)
-From Coq Require Import List NArith ZArith Bool Arith Lia.
+From Coq Require Import List NArith ZArith Bool Arith Lia Permutation.
 From SK Require Import lib.Reach lib.C17_Farkas model.C17_Model model.C19_Model proof.C17_Proof.
 From SK Require Import proof.C19_Complexes proof.C19_Linkage proof.C19_Regular.
 Require SK.proof.C19_ClassRank SK.proof.C19_Bridge.
@@ -70,3 +70,63 @@ Example ex_def_one :
     (linkage_deficiencies (linkage_classes (snd (complex_graph ex_ladder [])) (length (fst (complex_graph ex_ladder [])))) [1]) = true /\
   n_species (compute_summary ex_ladder [] 1) = 1 /\ n_complexes (compute_summary ex_ladder [] 1) = 3.
 Proof. repeat split; vm_compute; reflexivity. Qed.
+
+(* ------------------------------------------------------------------ bounds every summary satisfies *)
+
+Lemma concat_length_ge {A} (L : list (list A)) : (forall c, In c L -> c <> []) -> length L <= length (concat L).
+Proof.
+  induction L as [|c L IH]; intros H; simpl; [lia|]. rewrite app_length.
+  assert (c <> []) by (apply H; left; reflexivity). destruct c; [congruence|]. simpl.
+  assert (length L <= length (concat L)) by (apply IH; intros c' I; apply H; right; exact I). lia.
+Qed.
+
+Lemma nodup_incl_length {A} (l l' : list A) : NoDup l -> incl l l' -> length l <= length l'.
+Proof. intros ND I. apply NoDup_incl_length; assumption. Qed.
+
+(** 1 <= classes <= complexes <= 2 * reactions, arcs <= reactions, for every network with at least one reaction *)
+Theorem summary_bounds net iso r : net <> [] ->
+  let s := compute_summary net iso r in
+  1 <= n_linkage s /\ n_linkage s <= n_complexes s /\ n_complexes s <= 2 * n_reactions s /\
+  length (snd (complex_graph net iso)) <= n_reactions s.
+Proof.
+  intros NE s. destruct (summary_counts net iso r) as (_ & Er & Ec). fold s in Er, Ec.
+  pose proof (complex_graph_arcs_ok net iso) as OK.
+  destruct (linkage_spec _ _ OK) as (_ & _ & Q3 & _).
+  assert (El : n_linkage s = length (linkage_classes (snd (complex_graph net iso)) (length (fst (complex_graph net iso)))))
+    by (unfold s; rewrite compute_summary_eq; reflexivity).
+  pose proof (SK.proof.C19_Bridge.concat_classes_length net iso) as CL. cbv zeta in CL.
+  pose proof (complex_graph_inv net iso) as W. destruct (complex_graph net iso) as [cs arcs] eqn:Ecg. simpl in *.
+  destruct W as (NDc & Hin & NDa & Harc).
+  assert (Les : length (edges_sorted net) = length net) by (apply Permutation_length, edges_sorted_perm).
+  assert (Hc : length cs <= 2 * length net).
+  { rewrite <- Les. transitivity (length (flat_map (fun e => [cvec Reactant net iso e; cvec Product net iso e]) (edges_sorted net))).
+    - apply nodup_incl_length; [exact NDc|]. intros v Iv. apply Hin in Iv. destruct Iv as (e & Ie & Hv). apply in_flat_map. exists e.
+      split; [exact Ie|]. destruct Hv as [->| ->]; [left|right; left]; reflexivity.
+    - clear. induction (edges_sorted net) as [|e l IH]; simpl; lia. }
+  assert (Ha : length arcs <= length net).
+  { rewrite <- Les. transitivity (length (map (fun e => (match index_of (cvec Reactant net iso e) cs with Some u => u | None => 0 end,
+                                                          match index_of (cvec Product net iso e) cs with Some v => v | None => 0 end))
+                                            (edges_sorted net))); [|rewrite map_length; lia].
+    apply nodup_incl_length; [exact NDa|]. intros [u v] I. apply Harc in I. destruct I as (e & Ie & Eu & Ev). apply in_map_iff. exists e.
+    rewrite Eu, Ev. split; [reflexivity|exact Ie]. }
+  assert (Hl : length (linkage_classes arcs (length cs)) <= length cs).
+  { pose proof (concat_length_ge (linkage_classes arcs (length cs)) (fun c Ic => proj2 (Q3 c Ic))) as G. rewrite CL in G. exact G. }
+  assert (H1 : 1 <= length (linkage_classes arcs (length cs))).
+  { destruct net as [|e net']; [congruence|].
+    assert (Icv : In (cvec Reactant (e :: net') iso e) cs).
+    { apply Hin. exists e. split; [apply in_edges_sorted; left; reflexivity|left; reflexivity]. }
+    destruct cs as [|c0 cs']; [destruct Icv|]. destruct (linkage_classes arcs (length (c0 :: cs'))) as [|c L] eqn:EL; [|simpl; lia].
+    simpl in CL. discriminate CL. }
+  rewrite El, Ec, Er. repeat split; assumption.
+Qed.
+
+(** the deficiency-one front ends: when the count check passes, the hypotheses flag is exactly the regularity flag *)
+Theorem check_one_hypotheses s ld reg : check_deficiency_one s ld = true -> deficiency_one_hypotheses s ld reg = reg.
+Proof.
+  unfold check_deficiency_one, deficiency_one_hypotheses. rewrite !andb_true_iff. intros [[[H1 _] H3] H4].
+  rewrite H1, H4, H3. destruct ld as [|d ld]; [simpl in H4; discriminate|]. simpl. reflexivity.
+Qed.
+
+Example ex_bounds : let s := compute_summary ex_ladder [] 1 in
+  n_linkage s = 1 /\ n_complexes s = 3 /\ n_reactions s = 2 /\ length (snd (complex_graph ex_ladder [])) = 2.
+Proof. repeat split. Qed.
